@@ -223,7 +223,8 @@ fn run_case(ctx: &Ctx, index: u64, rep: &mut Report) {
             for _ in 0..len {
                 let kind = rng.below(10);
                 let (arg, class): (String, i32) = if kind < 5 {
-                    (rng.pick(&["1", "2", ".5", "1000000", ".0000001", "10^400", "1+1", "ABS(-3)", "3-2", "(1)"]).to_string(), 1)
+                    (rng.pick(&["1", "2", ".5", "1000000", ".0000001", "10^400", "1+1", "ABS(-3)", "3-2", "(1)",
+                        ".0000000000000001", ".00000000000000000000000000000000000001", "2^-60", "1/10^300", "2^-1074"]).to_string(), 1)
                 } else if kind < 8 {
                     if !had_positive {
                         ("1".to_string(), 1)
@@ -231,7 +232,7 @@ fn run_case(ctx: &Ctx, index: u64, rep: &mut Report) {
                         (rng.pick(&["0", "0.0", "-0", "1-1", "(0)", "0*5"]).to_string(), 0)
                     }
                 } else {
-                    (rng.pick(&["-1", "-.5", "-1000", "0-1", "-(10^400)", "-2+1"]).to_string(), -1)
+                    (rng.pick(&["-1", "-.5", "-1000", "0-1", "-(10^400)", "-2+1", "-.0000000000000001", "-(2^-60)", "-(2^-1074)"]).to_string(), -1)
                 };
                 let form = rng.below(3);
                 let line = match form {
